@@ -593,3 +593,13 @@ package lang
 //@   at store RunMode#1 assert imp(ret("strings.Join#1") == "tryerr module", parent.Scope.RunMode == runmode.ModuleTryErr)
 //@   at store RunMode#1 assert imp(ret("strings.Join#1") == "trypipeerr module", parent.Scope.RunMode == runmode.ModuleTryPipeErr)
 //@   at store RunMode#2 assert procs[$idx].RunMode == rm
+
+// The data type of `$GLOBAL.x` (and `$ENV.x`, `$MODULE.x`) never comes from the scoped lookup: a local
+// of the same name does not leak into it.
+//@ func (*Variables).GetDataType [C11]
+//@   check none
+//@   at call (*Variables).getValue#* modifies nothing
+//@   at call (*Variables).getDataType#* modifies nothing
+//@   at call ElementLookup#* modifies nothing
+//@   at call (*Variables).getDataType#* assert path == "." || len(split) == 1 || (split[0] != _VAR_GLOBAL && split[0] != _VAR_ENV && split[0] != _VAR_MODULE)
+//@   at call getGlobalDataType#* assert len(split) >= 2 && split[0] == _VAR_GLOBAL && arg0 == split[1]
